@@ -18,7 +18,7 @@ RULE = ('cases = protocol state (6, reached by a canonical prefix on the real lo
         'seeded segmentation; non-trivial = the stream is not a valid PDU sequence under R-codec '
         '(unrecognised, malformed, DIMSE-level garbage or incomplete); distinct = distinct '
         '(state, base, operator, ending)'
-        '; states incl. the release-collision states Sta9-Sta12; floods with a non-consuming user; FIN right behind the last byte; peer-announced maximum 1..6 followed by a local send (real association layer); reactions judged under FIN right behind the last byte; behind family: valid PDUs + invalid PDU in one segment + FIN')
+        '; states incl. the release-collision states Sta9-Sta12; floods with a non-consuming user; FIN right behind the last byte; peer-announced maximum 1..6 followed by a local send (real association layer); reactions judged under FIN right behind the last byte; behind family: valid PDUs + invalid PDU in one segment + FIN; FIN at the moment of ARTIM expiry')
 ASSUMPTIONS = ['two-branch reaction oracle: a PDU that is malformed under a strict reading may be '
                'treated as invalid (Evt19 row) or leniently as its own type; valid PDUs and '
                'DIMSE-level garbage are only required not to crash/hang and to end orderly',
@@ -111,6 +111,18 @@ def cases(tier, seed):
             yield dict(state=st, base=BASES_FOR[st][j % len(BASES_FOR[st])],
                        op=['behind', 1 + j % 3, ['unknown', 'zero', 'short'][j % 3]],
                        ending='fin', fin_now=True, one_segment=True, seed=seed * 100153 + j)
+    # the peer closes at the very moment ARTIM runs out (in the provider's first look at the
+    # connection after the expiry): whichever of the two is noticed first, the provider ends
+    # in order
+    for st in sorted(STATES):
+        for j in range(3 if tier == 'quick' else 40):
+            yield dict(state=st, base=BASES_FOR[st][j % len(BASES_FOR[st])],
+                       op=['behind', j % 2, 'unknown'], ending='fin', fin_at_expiry=True,
+                       seed=seed * 100183 + j)
+            # ... and at the instant of the expiry itself, before the provider has looked
+            yield dict(state=st, base=BASES_FOR[st][j % len(BASES_FOR[st])],
+                       op=['behind', j % 2, 'unknown'], ending='fin', fin_at_expiry='exact',
+                       seed=seed * 100183 + j)
     n = 600 if tier == 'quick' else 40000
     states = sorted(STATES)
     for i in range(n):
@@ -424,7 +436,20 @@ def run_case(case):
         gone = rig.sock_gone()
         state_at_end = rig.state()
         armed = rig.timer_running()
-        if not gone:
+        if not gone and case.get('fin_at_expiry') and armed:
+            from .. import sched as _sched
+            expiry = rig.provider.timer._start_time + c05.ARTIM
+            task = rig.task
+
+            def at_expiry():
+                if case['fin_at_expiry'] == 'exact':
+                    return rig.sim.now >= expiry - 1e-9 and not rig.sock_gone()
+                return (rig.sim.now >= expiry and task.kind == 'select' and
+                        task.deadline is not None and task.deadline - 0.05 >= expiry - 1e-9
+                        and not rig.sock_gone())
+            rig.sim.actors.append(_sched.Trigger('fin-at-expiry', at_expiry, lambda: (
+                rig.peer_fin(), rig.sim.bump('fault.fin_at_artim_expiry'))))
+        elif not gone:
             if case['ending'] == 'fin':
                 rig.peer_fin()
             elif case['ending'] == 'rst' and not rst_now:
